@@ -65,6 +65,12 @@ type hsOpts struct {
 	// ServerAfter runs on the server party after a successful handshake instead of App.
 	ServerAfter func(p *hsParty) error
 	ClientAfter func(p *hsParty) error
+	// Cancellation / stall injection (C19). Stall: 0 = off, -1 = count operations
+	// only, k+1 = the k-th conn operation of that endpoint blocks until Close.
+	ClientCtx, ServerCtx     context.Context
+	ClientStall, ServerStall int
+	Stalled                  chan struct{} // closed when the stall point is entered
+	Watchdog                 time.Duration
 }
 
 type hsResult struct {
@@ -112,7 +118,26 @@ func hsRun(o hsOpts) *hsResult {
 	ce.Hook = mkHook(&r.C2S, &r.C2SW, o.HookC2S)
 	se.Hook = mkHook(&r.S2C, &r.S2CW, o.HookS2C)
 	r.C.End, r.S.End = ce, se
+	for _, x := range []struct {
+		e *netsim.End
+		k int
+	}{{ce, o.ClientStall}, {se, o.ServerStall}} {
+		switch {
+		case x.k == -1:
+			x.e.StallAt = 1 << 30
+		case x.k > 0:
+			x.e.StallAt = x.k - 1
+			x.e.Stalled = o.Stalled
+		}
+	}
 	ctx := context.Background()
+	cctx, sctx := ctx, ctx
+	if o.ClientCtx != nil {
+		cctx = o.ClientCtx
+	}
+	if o.ServerCtx != nil {
+		sctx = o.ServerCtx
+	}
 	var wg sync.WaitGroup
 	wg.Add(2)
 	guard := func(p *hsParty, e *netsim.End) {
@@ -137,7 +162,7 @@ func hsRun(o hsOpts) *hsResult {
 		p.Cfg = o.ClientCfg
 		p.Stream = stream.NewStream(ce)
 		p.Auth = security.NewAuthenticator(p.Cfg, p.Stream)
-		p.Neg, p.Err = p.Auth.ClientHandshake(ctx)
+		p.Neg, p.Err = p.Auth.ClientHandshake(cctx)
 		if p.Err != nil {
 			ce.Close()
 			return
@@ -148,12 +173,12 @@ func hsRun(o hsOpts) *hsResult {
 			return
 		}
 		if o.App {
-			if err := p.Stream.SendMessage(ctx, []byte("ping-from-client")); err != nil {
+			if err := p.Stream.SendMessage(cctx, []byte("ping-from-client")); err != nil {
 				p.AppErr = err
 				ce.Close()
 				return
 			}
-			p.AppGot, p.AppErr = p.Stream.ReceiveCompleteMessage(ctx)
+			p.AppGot, p.AppErr = p.Stream.ReceiveCompleteMessage(cctx)
 			if p.AppErr != nil {
 				ce.Close()
 			}
@@ -177,7 +202,7 @@ func hsRun(o hsOpts) *hsResult {
 		if o.ServerCfgForCmd != nil {
 			p.Auth.ServerConfigForCommand = o.ServerCfgForCmd
 		}
-		p.Neg, p.Err = p.Auth.ServerHandshake(ctx)
+		p.Neg, p.Err = p.Auth.ServerHandshake(sctx)
 		if p.Err != nil {
 			se.Close()
 			return
@@ -188,12 +213,12 @@ func hsRun(o hsOpts) *hsResult {
 			return
 		}
 		if o.App {
-			p.AppGot, p.AppErr = p.Stream.ReceiveCompleteMessage(ctx)
+			p.AppGot, p.AppErr = p.Stream.ReceiveCompleteMessage(sctx)
 			if p.AppErr != nil {
 				se.Close()
 				return
 			}
-			if err := p.Stream.SendMessage(ctx, []byte("pong-from-server")); err != nil {
+			if err := p.Stream.SendMessage(sctx, []byte("pong-from-server")); err != nil {
 				p.AppErr = err
 				se.Close()
 			}
@@ -203,7 +228,12 @@ func hsRun(o hsOpts) *hsResult {
 	go func() { wg.Wait(); close(done) }()
 	select {
 	case <-done:
-	case <-time.After(60 * time.Second):
+	case <-time.After(func() time.Duration {
+		if o.Watchdog > 0 {
+			return o.Watchdog
+		}
+		return 60 * time.Second
+	}()):
 		r.Timeout = true
 		ce.Close()
 		se.Close()
